@@ -36,6 +36,47 @@ def run(ck):
     r3_quotient(ck, w)
     r4_opened(ck, w)
     r5_copy(ck, w)
+    r6_backends(ck, w)
+
+
+def r6_backends(ck, w):
+    ck.rule('C02.R6', 'sibling agreement of the assignment back-ends: keygen::Assembly and MockProver implement Assignment::{assign_fixed, enable_selector, copy, '
+                      'fill_from_row}; each tests usable_rows.contains(row) on the rows it touches, and fill_from_row fills exactly usable_rows from from_row on '
+                      '(same canonical row domain in both) — the keys the verifier uses and the table the mock checker checks are built from the same cells')
+    A = 'midnight_proofs::plonk::circuit::Assignment>::'
+    sibs = {'keygen': '<midnight_proofs::plonk::keygen::Assembly as ' + A, 'mock': '<midnight_proofs::dev::MockProver as ' + A}
+    def canon_dom(e):
+        """canonical row domain of a loop header"""
+        e = peel(e)
+        if e.get('k') == 'mcall' and e.get('m') == 'skip':
+            base = peel(e['recv'])
+            while base.get('k') == 'mcall' and base.get('m') in ('clone', 'iter', 'into_iter', 'by_ref'):
+                base = peel(base['recv'])
+            arg = peel(e['args'][0]) if e.get('args') else {}
+            if base.get('k') == 'field' and arg.get('k') == 'local':
+                return f'{base["n"]}[param {arg["n"]}..]'
+        if e.get('k') == 'struct' and (e.get('p') or '').endswith('Range'):
+            fs = dict(e.get('fs', []))
+            st, en = peel(fs.get('start', {})), peel(fs.get('end', {}))
+            if st.get('k') == 'local' and en.get('k') == 'field' and en['n'] == 'end' and peel(en['e']).get('k') == 'field':
+                return f'{peel(en["e"])["n"]}[param {st["n"]}..]'
+        from ..core import expr_str
+        return 'other: ' + expr_str(e)[:80]
+    doms = {}
+    for name, pre in sibs.items():
+        for m in ('assign_fixed', 'enable_selector', 'copy', 'fill_from_row'):
+            f = w.fn(pre + m)
+            guards = [c for c in hirq.calls(f['body']) if c.get('m') == 'contains' and any(x.get('k') == 'field' and x['n'] == 'usable_rows' for x in walk(c['recv']))]
+            need = 2 if m == 'copy' else 1
+            ck.record('C02.R6', f'{name}:{m}:usable-rows-guard', len(guards) >= need, f'{len(guards)} usable_rows.contains(..) test(s)',
+                      f'{pre + m} no longer checks that the rows it touches are usable rows (found {len(guards)}, expected {need})', hirq.fn_loc(f))
+        f = w.fn(pre + 'fill_from_row')
+        loops = [n for n in walk(f['body']) if n.get('k') == 'for']
+        doms[name] = [canon_dom(l['iter']) for l in loops]
+    ck.record('C02.R6', 'fill_from_row:same-rows', doms['keygen'] == doms['mock'] and doms['keygen'] == ['usable_rows[param from_row..]'],
+              f'both back-ends fill {doms["keygen"]}',
+              f'keygen::Assembly::fill_from_row fills {doms["keygen"]} but MockProver::fill_from_row fills {doms["mock"]}: the fixed table committed in the keys '
+              f'and the table the mock checker uses are padded differently, so the verifier and the mock checker can disagree on lookups')
 
 
 def r1_cover(ck, w):
@@ -83,6 +124,8 @@ def leaf_count(n):
         if arrs:
             return sum(leaf_count(e) for e in arrs[0].get('es', []))
         return 1
+    if k == 'call' and (callee(n) or '').endswith('::empty'):
+        return 0
     if k == 'call':
         c = callee(n) or n.get('f', '')
         if n.get('dk') == 'Ctor' and n.get('args'):
